@@ -6,6 +6,7 @@ C.7 Mathematical Formulas (p187)
 from plasTeX.Base.LaTeX.Arrays import Array
 from plasTeX import Command, Environment, sourceChildren, NoCharSubEnvironment
 from plasTeX import DimenCommand, GlueCommand, TeXFragment
+from plasTeX.Base.TeX.Primitives import BoxCommand
 from typing import Optional
 
 #
@@ -690,7 +691,9 @@ class boldmath(Command):
 class unboldmath(Command):
     pass
 
-class text(Command):
+class text(BoxCommand):
+    # a text box: its content is read in text mode, so that a $ inside it
+    # opens a nested formula instead of closing the enclosing one
     args = 'self'
 
 # Math Style
